@@ -1,12 +1,525 @@
 // Contract harnesses for statime-wire/src/messages/mod.rs (child module: sees private items).
+// Property C41: whole-message codec (header + body + TLV suffix), every body type.
+//
+// Bounds: TLV suffix <= 12 bytes (quick) for the round-trip harnesses; parsed byte strings
+// <= 80 bytes (quick: header 34 + largest body 30 + 16) / 128 and 256 bytes (thorough).
 #![allow(unused_imports)]
 use super::*;
+use crate::common::{
+    ClockAccuracy, ClockIdentity, ClockQuality, PortIdentity, TimeInterval, TimeSource, Timestamp,
+    TlvSetBuilder, TlvType, Tlv,
+};
+
+// ---------------------------------------------------------------- generators (type invariants only)
+
+fn any_header() -> Header {
+    let sdo: u16 = kani::any();
+    kani::assume(sdo <= 0xfff);
+    let major: u8 = kani::any();
+    let minor: u8 = kani::any();
+    kani::assume(major < 16 && minor < 16);
+    Header {
+        sdo_id: SdoId::try_from(sdo).unwrap(),
+        version: PtpVersion::new(major, minor).unwrap(),
+        domain_number: kani::any(),
+        alternate_master_flag: kani::any(),
+        two_step_flag: kani::any(),
+        unicast_flag: kani::any(),
+        ptp_profile_specific_1: kani::any(),
+        ptp_profile_specific_2: kani::any(),
+        leap61: kani::any(),
+        leap59: kani::any(),
+        current_utc_offset_valid: kani::any(),
+        ptp_timescale: kani::any(),
+        time_tracable: kani::any(),
+        frequency_tracable: kani::any(),
+        synchronization_uncertain: kani::any(),
+        correction_field: TimeInterval(kani::any()),
+        source_port_identity: any_port(),
+        sequence_id: kani::any(),
+        log_message_interval: kani::any(),
+    }
+}
+
+/// Timestamp type invariant = what `Timestamp::new` accepts: seconds < 2^48, nanos < 10^9.
+fn any_ts() -> Timestamp {
+    let s: u64 = kani::any();
+    let n: u32 = kani::any();
+    kani::assume(s < (1 << 48) && n < 1_000_000_000);
+    Timestamp::new(s, n).unwrap()
+}
+
+fn any_port() -> PortIdentity {
+    PortIdentity { clock_identity: ClockIdentity(kani::any()), port_number: kani::any() }
+}
+
+/// Canonical enum values = images of the parsers (see c41_p_enum_codecs for the others).
+fn any_body(kind: MessageType) -> MessageBody {
+    match kind {
+        MessageType::Sync => MessageBody::Sync(SyncMessage { origin_timestamp: any_ts() }),
+        MessageType::DelayReq => MessageBody::DelayReq(DelayReqMessage { origin_timestamp: any_ts() }),
+        MessageType::PDelayReq => MessageBody::PDelayReq(PDelayReqMessage { origin_timestamp: any_ts() }),
+        MessageType::PDelayResp => MessageBody::PDelayResp(PDelayRespMessage {
+            request_receive_timestamp: any_ts(),
+            requesting_port_identity: any_port(),
+        }),
+        MessageType::FollowUp => MessageBody::FollowUp(FollowUpMessage { precise_origin_timestamp: any_ts() }),
+        MessageType::DelayResp => MessageBody::DelayResp(DelayRespMessage {
+            receive_timestamp: any_ts(),
+            requesting_port_identity: any_port(),
+        }),
+        MessageType::PDelayRespFollowUp => MessageBody::PDelayRespFollowUp(PDelayRespFollowUpMessage {
+            response_origin_timestamp: any_ts(),
+            requesting_port_identity: any_port(),
+        }),
+        MessageType::Announce => MessageBody::Announce(AnnounceMessage {
+            origin_timestamp: any_ts(),
+            current_utc_offset: kani::any(),
+            grandmaster_priority_1: kani::any(),
+            grandmaster_clock_quality: ClockQuality {
+                clock_class: kani::any(),
+                clock_accuracy: ClockAccuracy::from_primitive(kani::any()),
+                offset_scaled_log_variance: kani::any(),
+            },
+            grandmaster_priority_2: kani::any(),
+            grandmaster_identity: ClockIdentity(kani::any()),
+            steps_removed: kani::any(),
+            time_source: TimeSource::from_primitive(kani::any()),
+        }),
+        MessageType::Signaling => MessageBody::Signaling(SignalingMessage { target_port_identity: any_port() }),
+        MessageType::Management => MessageBody::Management(ManagementMessage {
+            target_port_identity: any_port(),
+            starting_boundary_hops: kani::any(),
+            boundary_hops: kani::any(),
+            action: ManagementAction::from_primitive(kani::any()),
+        }),
+    }
+}
+
+fn body_len(kind: MessageType) -> usize {
+    // IEEE 1588-2019 clause 13: body sizes
+    match kind {
+        MessageType::Sync | MessageType::DelayReq | MessageType::FollowUp | MessageType::Signaling => 10,
+        MessageType::PDelayReq | MessageType::PDelayResp | MessageType::DelayResp | MessageType::PDelayRespFollowUp => 20,
+        MessageType::Announce => 30,
+        MessageType::Management => 14,
+    }
+}
+
+const SUFFIX_MAX: usize = 12;
+const BUF: usize = 34 + 30 + SUFFIX_MAX + 4;
+
+/// Contract for m -> bytes -> m, one body type, any header, any *validated* TLV suffix <= 12 bytes:
+/// - wire_size == 34 + body size + suffix size
+/// - serialize into a buffer with any prior content that is large enough: Ok(wire_size)
+/// - the written length field equals wire_size, the type nibble equals the body type
+/// - deserialize of the buffer (exact length or with trailing padding) yields a message equal
+///   to m (header, body, suffix)
+/// - a buffer one byte too short (or any shorter prefix length) gives Err, never a panic.
+fn roundtrip_contract(kind: MessageType) {
+    let header = any_header();
+    let body = any_body(kind);
+    let sb: [u8; SUFFIX_MAX] = kani::any();
+    let sn: usize = kani::any();
+    kani::assume(sn <= SUFFIX_MAX);
+    let suffix = TlvSet::deserialize(&sb[..sn]);
+    kani::assume(suffix.is_ok()); // precondition: suffix is a set the parser validated (<= 12 bytes)
+    let m = Message { header, body, suffix: suffix.unwrap() };
+    let ws = m.wire_size();
+    assert!(ws == 34 + body_len(kind) + sn);
+    let mut buf: [u8; BUF] = kani::any();
+    let r = m.serialize(&mut buf);
+    assert!(matches!(r, Ok(x) if x == ws));
+    assert!(u16::from_be_bytes([buf[2], buf[3]]) as usize == ws);
+    assert!(buf[0] & 0xf == kind as u8);
+    let exact: bool = kani::any();
+    let back = Message::deserialize(if exact { &buf[..ws] } else { &buf[..] });
+    assert!(back.is_ok());
+    assert!(back.unwrap() == m);
+    kani::cover!(sn == SUFFIX_MAX, "longest suffix round-trips");
+    kani::cover!(sn == 0 && exact, "no suffix, exact buffer");
+    kani::cover!(!exact, "trailing padding ignored");
+}
+
+/// Short output buffers: Err, never a panic (any length below the wire size).
+fn short_buffer_contract(kind: MessageType) {
+    let m = Message { header: any_header(), body: any_body(kind), suffix: TlvSet::default() };
+    let mut buf: [u8; 64] = kani::any();
+    let blen: usize = kani::any();
+    kani::assume(blen < 34 + body_len(kind));
+    let short_buffer_is_err = m.serialize(&mut buf[..blen]).is_err();
+    assert!(short_buffer_is_err);
+    kani::cover!(blen == 33 + body_len(kind), "one byte short");
+    kani::cover!(blen == 0, "empty buffer");
+}
+
+macro_rules! roundtrip_harness {
+    ($name:ident, $kind:expr) => {
+        #[kani::proof]
+        #[kani::unwind(14)]
+        fn $name() {
+            roundtrip_contract($kind);
+        }
+    };
+}
+roundtrip_harness!(c41_b_roundtrip_sync, MessageType::Sync);
+roundtrip_harness!(c41_tb_roundtrip_delay_req, MessageType::DelayReq);
+roundtrip_harness!(c41_tb_roundtrip_pdelay_req, MessageType::PDelayReq);
+roundtrip_harness!(c41_tb_roundtrip_pdelay_resp, MessageType::PDelayResp);
+roundtrip_harness!(c41_tb_roundtrip_follow_up, MessageType::FollowUp);
+roundtrip_harness!(c41_tb_roundtrip_delay_resp, MessageType::DelayResp);
+roundtrip_harness!(c41_tb_roundtrip_pdelay_resp_fup, MessageType::PDelayRespFollowUp);
+roundtrip_harness!(c41_tb_roundtrip_announce, MessageType::Announce);
+roundtrip_harness!(c41_tb_roundtrip_signaling, MessageType::Signaling);
+roundtrip_harness!(c41_tb_roundtrip_management, MessageType::Management);
+
+/// m -> bytes -> m with a suffix produced by the library's own TlvSetBuilder (the way
+/// statime-csptp builds every message): one or two TLVs with even-length values <= 4 bytes.
+/// STATEMENT: whatever the library can serialise parses back to an equal message.
+#[kani::proof]
+#[kani::unwind(20)]
+fn c41_tb_roundtrip_built_suffix() {
+    let header = any_header();
+    let body = any_body(MessageType::Sync);
+    let v1: [u8; 4] = kani::any();
+    let v2: [u8; 4] = kani::any();
+    let n1: usize = kani::any();
+    let n2: usize = kani::any();
+    kani::assume(n1 <= 4 && n1 % 2 == 0);
+    kani::assume(n2 <= 4 && n2 % 2 == 0);
+    let t1 = TlvType::from_primitive(kani::any());
+    let t2 = TlvType::from_primitive(kani::any());
+    let mut storage = [0u8; 16];
+    let mut builder = TlvSetBuilder::new(&mut storage);
+    assert!(builder.add(&Tlv { tlv_type: t1, value: (&v1[..n1]).into() }).is_ok());
+    assert!(builder.add(&Tlv { tlv_type: t2, value: (&v2[..n2]).into() }).is_ok());
+    let m = Message { header, body, suffix: builder.build() };
+    kani::cover!(n2 == 0, "message ending in an empty-valued TLV");
+    kani::cover!(n2 == 4, "message ending in a 4-byte-valued TLV");
+    let mut buf = [0u8; 34 + 10 + 16];
+    let r = m.serialize(&mut buf);
+    assert!(r.is_ok());
+    let w = r.unwrap();
+    assert!(w == 34 + 10 + 8 + n1 + n2);
+    let back = Message::deserialize(&buf[..w]);
+    let serialised_message_parses = back.is_ok();
+    assert!(serialised_message_parses);
+    assert!(back.unwrap() == m);
+}
+
+// ---------------------------------------------------------------- bytes -> m -> bytes
+
+/// Clears, in a copy of the input, every field the parser does not keep (all "reserved"/
+/// ignored-on-receipt in IEEE 1588-2019) and maps every reserved code to the representative the
+/// library emits. This is the complete list of information lost by parse + re-serialise.
+fn canonical_form<const N: usize>(b: &[u8; N], kind: MessageType) -> [u8; N] {
+    let mut c = *b;
+    c[6] &= !0b1001_1000; // reserved flag bits
+    c[7] &= !0x80;
+    c[16] = 0; // messageTypeSpecific
+    c[17] = 0;
+    c[18] = 0;
+    c[19] = 0;
+    c[32] = 0; // controlField (deprecated)
+    match kind {
+        MessageType::PDelayReq => {
+            let mut i = 44;
+            while i < 54 {
+                c[i] = 0; // reserved to equalise length with PDelayResp
+                i += 1;
+            }
+        }
+        MessageType::Announce => {
+            c[34 + 12] = 0; // reserved octet
+            // clockAccuracy: all reserved codes collapse to 0x00
+            let a = c[34 + 15];
+            if a <= 0x16 || (0x32..=0x7f).contains(&a) || a == 0xff {
+                c[34 + 15] = 0;
+            }
+        }
+        MessageType::Management => {
+            c[34 + 10] = 0; // reserved octet
+            if c[34 + 13] >= 5 {
+                c[34 + 13] = 5; // actionField: every value >= 5 is "Reserved", emitted as 5
+            }
+        }
+        _ => {}
+    }
+    c
+}
+
+fn is_known_type(nibble: u8) -> bool {
+    matches!(nibble, 0 | 1 | 2 | 3 | 8 | 9 | 0xa | 0xb | 0xc | 0xd)
+}
+
+/// Contract for bytes -> m -> bytes over every N-byte datagram whose type nibble is `kind`
+/// (N = 34 + body + S, S = suffix bound; messageLength is free, so shorter messages followed by
+/// padding are included):
+/// - Message::deserialize never panics and terminates
+/// - Ok(m) => messageLength L (octets 2..4) satisfies 34 + body <= L <= N; m.wire_size() == L;
+///   m re-serialises (into a zeroed buffer) to exactly L bytes equal to canonical_form(input)[..L];
+///   parsing those bytes again gives m (idempotence); iterating the suffix with the public
+///   iterator never panics, terminates, and covers the whole suffix.
+/// `strict` additionally demands the literal statement (output == input[..L]).
+fn reparse_contract<const N: usize>(kind: MessageType, strict: bool) {
+    let b: [u8; N] = kani::any();
+    kani::assume(b[0] & 0xf == kind as u8);
+    let r = Message::deserialize(&b);
+    match &r {
+        Ok(m) => {
+            let l = u16::from_be_bytes([b[2], b[3]]) as usize;
+            assert!(m.body.content_type() == kind);
+            assert!(l >= 34 + body_len(kind) && l <= N);
+            assert!(m.wire_size() == l);
+            let mut out = [0u8; N];
+            let w = m.serialize(&mut out);
+            assert!(matches!(w, Ok(x) if x == l));
+            let canon = canonical_form(&b, kind);
+            // forall i < l (one symbolic index instead of a comparison loop)
+            let i: usize = kani::any();
+            kani::assume(i < l);
+            assert!(out[i] == canon[i]);
+            if strict {
+                let reserialises_to_parsed_prefix = out[i] == b[i];
+                assert!(reserialises_to_parsed_prefix);
+            }
+            let again = Message::deserialize(&out[..l]);
+            assert!(again.is_ok() && again.unwrap() == *m);
+            let mut it = m.suffix.tlvs();
+            let mut cnt = 0;
+            let mut total = 0;
+            while cnt <= N / 4 {
+                match it.next() {
+                    Some(t) => total += 4 + t.value.len(),
+                    None => break,
+                }
+                cnt += 1;
+            }
+            assert!(cnt <= N / 4);
+            assert!(total == l - 34 - body_len(kind));
+            kani::cover!(cnt >= 1, "message with a TLV parsed");
+            kani::cover!(l < N, "trailing padding after messageLength ignored");
+            kani::cover!(l == N, "message filling the datagram");
+        }
+        Err(_) => {}
+    }
+    kani::cover!(r.is_err(), "rejection reachable");
+}
+
+macro_rules! reparse_harness {
+    ($name:ident, $kind:expr, $n:expr, $strict:expr) => {
+        #[kani::proof]
+        #[kani::unwind(14)]
+        fn $name() {
+            reparse_contract::<{ $n }>($kind, $strict);
+        }
+    };
+}
+// quick: suffix <= 8 bytes for the three types CSPTP and the announce path use
+reparse_harness!(c41_tb_reparse8_sync, MessageType::Sync, 34 + 10 + 8, false);
+reparse_harness!(c41_tb_reparse8_follow_up, MessageType::FollowUp, 34 + 10 + 8, false);
+reparse_harness!(c41_tb_reparse8_announce, MessageType::Announce, 34 + 30 + 8, false);
+// thorough: every type, suffix <= 12 bytes
+reparse_harness!(c41_tb_reparse_sync, MessageType::Sync, 34 + 10 + 12, false);
+reparse_harness!(c41_tb_reparse_delay_req, MessageType::DelayReq, 34 + 10 + 12, false);
+reparse_harness!(c41_tb_reparse_pdelay_req, MessageType::PDelayReq, 34 + 20 + 12, false);
+reparse_harness!(c41_tb_reparse_pdelay_resp, MessageType::PDelayResp, 34 + 20 + 12, false);
+reparse_harness!(c41_tb_reparse_follow_up, MessageType::FollowUp, 34 + 10 + 12, false);
+reparse_harness!(c41_tb_reparse_delay_resp, MessageType::DelayResp, 34 + 20 + 12, false);
+reparse_harness!(c41_tb_reparse_pdelay_resp_fup, MessageType::PDelayRespFollowUp, 34 + 20 + 12, false);
+reparse_harness!(c41_tb_reparse_announce, MessageType::Announce, 34 + 30 + 12, false);
+reparse_harness!(c41_tb_reparse_signaling, MessageType::Signaling, 34 + 10 + 12, false);
+reparse_harness!(c41_tb_reparse_management, MessageType::Management, 34 + 14 + 12, false);
+
+/// STATEMENT, literally (see header.rs c41_p_header_reparse_strict): refuted by any input with a
+/// non-zero reserved field. Bound: PDelayReq without suffix (54 bytes).
+reparse_harness!(c41_tb_reparse_strict_pdelay_req, MessageType::PDelayReq, 54, true);
+
+/// Totality only (no postcondition beyond "returns a value consistent with messageLength"): any
+/// byte string of any length <= N, any type nibble.
+fn total_contract<const N: usize>() {
+    let b: [u8; N] = kani::any();
+    let n: usize = kani::any();
+    kani::assume(n <= N);
+    let r = Message::deserialize(&b[..n]);
+    if let Ok(m) = &r {
+        assert!(m.wire_size() <= n);
+        assert!(m.wire_size() == u16::from_be_bytes([b[2], b[3]]) as usize);
+    }
+    assert!(is_compatible(&b[..n]) == (n >= 2 && b[1] & 0xf == 2));
+    kani::cover!(r.is_ok() && n == N, "full-length message parsed");
+    kani::cover!(r.is_err(), "rejection reachable");
+}
+
+#[kani::proof]
+#[kani::unwind(10)]
+fn c41_b_parse_total_64() {
+    total_contract::<64>();
+}
+
+#[kani::proof]
+#[kani::unwind(42)]
+fn c41_tb_parse_total_160() {
+    total_contract::<160>();
+}
+
+// ---------------------------------------------------------------- bodies alone (complete, loop-free)
+
+/// Body codecs, all ten types, full domain, no loops: (1) any canonical body serialises into any
+/// buffer of length >= its size (Ok) or shorter (Err, no panic) and parses back equal;
+/// (2) any 32 octets cut at any length: parse never panics; Ok => the body re-serialises (zeroed
+/// buffer) to the canonical form of the input; too short => Err.
+fn body_contract(kind: MessageType) {
+    let body = any_body(kind);
+    let size = body_len(kind);
+    assert!(body.wire_size() == size && body.content_type() == kind);
+    let mut buf: [u8; 32] = kani::any();
+    let blen: usize = kani::any();
+    kani::assume(blen <= 32);
+    let r = body.serialize(&mut buf[..blen]);
+    if blen >= size {
+        assert!(matches!(r, Ok(x) if x == size));
+        let back = MessageBody::deserialize(kind, &buf[..blen]);
+        assert!(back.is_ok() && back.unwrap() == body);
+    } else {
+        assert!(r.is_err());
+    }
+    // bytes -> body -> bytes
+    let b: [u8; 32] = kani::any();
+    let n: usize = kani::any();
+    kani::assume(n <= 32);
+    let p = MessageBody::deserialize(kind, &b[..n]);
+    if let Ok(pb) = &p {
+        assert!(n >= size);
+        let mut full = [0u8; 34 + 32];
+        full[34..].copy_from_slice(&b);
+        let canon = canonical_form(&full, kind);
+        let mut out = [0u8; 32];
+        assert!(pb.serialize(&mut out).is_ok());
+        assert!(out[..size] == canon[34..34 + size]);
+        let again = MessageBody::deserialize(kind, &out[..size]);
+        assert!(again.is_ok() && again.unwrap() == *pb);
+    } else {
+        // only two reasons to reject a body: too short, or a nanoseconds field out of range
+        assert!(n < size || !matches!(kind, MessageType::Signaling | MessageType::Management));
+    }
+    kani::cover!(r.is_err(), "short output buffer");
+    kani::cover!(p.is_ok() && n == size, "exact-size body parsed");
+    kani::cover!(p.is_err(), "rejection reachable");
+}
+
+macro_rules! body_harness {
+    ($name:ident, $kind:expr) => {
+        #[kani::proof]
+        #[kani::unwind(34)]
+        fn $name() {
+            body_contract($kind);
+        }
+    };
+}
+body_harness!(c41_p_body_sync, MessageType::Sync);
+body_harness!(c41_p_body_delay_req, MessageType::DelayReq);
+body_harness!(c41_p_body_pdelay_req, MessageType::PDelayReq);
+body_harness!(c41_p_body_pdelay_resp, MessageType::PDelayResp);
+body_harness!(c41_p_body_follow_up, MessageType::FollowUp);
+body_harness!(c41_p_body_delay_resp, MessageType::DelayResp);
+body_harness!(c41_p_body_pdelay_resp_fup, MessageType::PDelayRespFollowUp);
+body_harness!(c41_p_body_announce, MessageType::Announce);
+body_harness!(c41_p_body_signaling, MessageType::Signaling);
+body_harness!(c41_p_body_management, MessageType::Management);
+
+// ---------------------------------------------------------------- leaf enum codecs (complete)
+
+/// post: for every octet v: parse(v).code is v, or, for reserved codes, the representative; the
+/// parser's image is closed under parse∘serialise (canonical values round-trip exactly).
+#[kani::proof]
+fn c41_p_enum_codecs() {
+    let v: u8 = kani::any();
+    let a = ClockAccuracy::from_primitive(v);
+    assert!(ClockAccuracy::from_primitive(a.to_primitive()) == a);
+    assert!(a.to_primitive() == v || (a == ClockAccuracy::Reserved && a.to_primitive() == 0));
+    let t = TimeSource::from_primitive(v);
+    assert!(t.to_primitive() == v);
+    assert!(TimeSource::from_primitive(t.to_primitive()) == t);
+    let m = ManagementAction::from_primitive(v);
+    assert!(ManagementAction::from_primitive(m.to_primitive()) == m);
+    assert!(m.to_primitive() == if v < 5 { v } else { 5 });
+    let k = MessageType::try_from(v);
+    assert!(k.is_ok() == is_known_type(v));
+    if let Ok(k) = k {
+        assert!(k as u8 == v);
+    }
+    kani::cover!(a == ClockAccuracy::Reserved && v != 0, "reserved accuracy codes collapse");
+    kani::cover!(matches!(a, ClockAccuracy::ProfileSpecific(0x7d)), "largest profile specific code");
+}
+
+/// STATEMENT: "every message the library can serialise": ClockAccuracy is a public enum whose
+/// ProfileSpecific payload is a free u8; serialising it must not panic.
+#[kani::proof]
+fn c41_p_clock_accuracy_serialise_total() {
+    let p: u8 = kani::any();
+    let a = ClockAccuracy::ProfileSpecific(p);
+    let code = a.to_primitive(); // 0x80 + p
+    assert!(code >= 0x80);
+    kani::cover!(p == 0x7d, "reachable");
+}
+
+/// Timestamp wire codec: any 10 octets; parse never panics, an accepted timestamp re-serialises to
+/// the same octets, a rejected one has a nanoseconds field >= 10^9; valid values round-trip.
+#[kani::proof]
+fn c41_p_timestamp_codec() {
+    let b: [u8; 10] = kani::any();
+    let r = Timestamp::deserialize(&b);
+    let nanos = u32::from_be_bytes([b[6], b[7], b[8], b[9]]);
+    match r {
+        Ok(ts) => {
+            let mut out = [0u8; 10];
+            assert!(ts.serialize(&mut out).is_ok());
+            assert!(out == b);
+            assert!(ts.seconds() < (1 << 48));
+            assert!(ts.nanos() == nanos);
+        }
+        Err(_) => assert!(nanos >= 1_000_000_000),
+    }
+    let t = any_ts();
+    let mut o = [0u8; 10];
+    assert!(t.serialize(&mut o).is_ok());
+    let back = Timestamp::deserialize(&o);
+    assert!(back.is_ok() && back.unwrap() == t);
+    assert!(Timestamp::deserialize(&b[..9]).is_err());
+    kani::cover!(r.is_err(), "out-of-range nanoseconds rejected");
+}
+
+/// Type invariant: a parsed Timestamp is one `Timestamp::new` would accept (nanos < 10^9). Callers
+/// (statime-csptp convert_to_ntp -> NtpTimestamp::from_seconds_nanos_since_ntp_era) rely on it.
+#[kani::proof]
+fn c41_p_timestamp_parse_invariant() {
+    let b: [u8; 10] = kani::any();
+    if let Ok(ts) = Timestamp::deserialize(&b) {
+        let parsed_timestamp_satisfies_new_invariant = Timestamp::new(ts.seconds(), ts.nanos()).is_ok();
+        assert!(parsed_timestamp_satisfies_new_invariant);
+    }
+    kani::cover!(true, "reachable");
+}
+
+/// canary: claims the announce stepsRemoved field does not survive the round trip.
+#[kani::proof]
+#[kani::unwind(16)]
+fn c41_canary_announce_steps_lost() {
+    let header = any_header();
+    let body = any_body(MessageType::Announce);
+    let m = Message { header, body, suffix: TlvSet::default() };
+    let mut buf = [0u8; 64];
+    let w = m.serialize(&mut buf).unwrap();
+    let back = Message::deserialize(&buf[..w]).unwrap();
+    match (back.body, m.body) {
+        (MessageBody::Announce(x), MessageBody::Announce(y)) => assert!(x.steps_removed != y.steps_removed),
+        _ => {}
+    }
+}
 
 #[cfg(all(kani, test))]
 mod replay {
-    extern crate std;
-    #[allow(unused_imports)]
-    use std::{vec, vec::Vec};
     use super::*;
     include!(concat!(env!("VERIF_REPLAY_DIR"), "/statime_wire__messages__mod.rs"));
 }
